@@ -185,6 +185,15 @@ def unqueuer(prog: Program):
             for fi in fis:
                 if fi.is_async and any(isinstance(n, ast.Call) and _self_attr(n.func) == "register_payload" for n in ast.walk(fi.node)):
                     return fi
+        # ... or through a private synchronous helper it calls per queue
+        for fis in cls.methods.values():
+            for fi in fis:
+                if not fi.is_async:
+                    continue
+                for n in ast.walk(fi.node):
+                    g = prog.lookup_method(cls, _self_attr(n.func)) if isinstance(n, ast.Call) and _self_attr(n.func) else None
+                    if g is not None and not g.is_async and g.name.startswith("_") and any(isinstance(x, ast.Call) and _self_attr(x.func) == "register_payload" for x in ast.walk(g.node)):
+                        return fi
         raise Undecided("MetaRunner has no coroutine flushing the queue", cls.node)
 
     return _memo(prog, "unqueuer", find)
